@@ -47,6 +47,19 @@ class Analyzer:
         I = self.I
         f = fn.func if isinstance(fn, BoundV) else fn
         if not isinstance(f, FuncV):
+            # a reader/writer handed around as a value need not be a plain function: functools.partial over one, or an instance of a
+            # private callable class, is the same thing to its caller -- one opaque codec call on the stream
+            if higher_order and id(node) not in self.inline and isinstance(fn, (PartialV, InstV)) and callable_target(fn) is not None \
+                    and has_stream(args, kwargs):
+                self.stats["codec_calls"] += 1
+                streams = [a for a in list(args) + list(kwargs.values()) if isinstance(a, StreamV)]
+                others = [a for a in args if not isinstance(a, StreamV)] + [v for v in kwargs.values() if not isinstance(v, StreamV)]
+                term = ("codec", run.fresh_wire(), fn.uid)
+                self.codec_sites[term] = id(node)
+                run.emit("codec", streams[0], fn, tuple(others), term, I.site(node))
+                self.maybe_fault(run, "codec", term, I.site(node))
+                self.codec_may_raise(run, term, I.site(node))
+                return Sym(term, "any", opaque_none=True, maybe_none=True, codec=fn)
             return NotImplemented
         if f.uid in I.cached_functions and not has_stream(args, kwargs):
             try:
@@ -461,7 +474,7 @@ class Analyzer:
     # ------------------------------------------------------------------ entry points
     def paths(self, fn, args, kwargs=None, direction=None) -> list[Path]:
         I = self.I
-        from .values import _ids
+        from .values import callable_target, PartialV, _ids
         self.path_base = next(_ids)
         prev = (self.direction, self.root)
         self.direction = direction or ("r" if len(args) == 1 else "w")
